@@ -185,6 +185,7 @@ func boolRep(r *rand.Rand, b bool) rep {
 // ---- rounds ----
 
 type qcall struct {
+	h      int // index of the DB handle (engine) the call goes to
 	table  string
 	row    bool // QueryRow
 	filter sqlgen.Filter
@@ -221,7 +222,7 @@ func (c *qcall) describe() string {
 	if c.filter == nil {
 		f = "nil"
 	}
-	return fmt.Sprintf("%s(%s, %s)", op, c.table, f)
+	return fmt.Sprintf("db%d.%s(%s, %s)", c.h, op, c.table, f)
 }
 
 func show(v interface{}) string {
@@ -260,6 +261,14 @@ func (c *qcall) shape() string {
 	return op + ":" + c.table + "{" + strings.Join(cols, ",") + "}"
 }
 
+// String domains contain separator-bearing values (commas, spaces, values that
+// are prefixes / suffixes of each other) so that tuples such as ("a,b", "x")
+// and ("a", "b,x") occur: they are different filters whose printed values
+// coincide.
+var nameDomain = []string{"a", "b", "c", "", "a,b", "a b"}
+var stDomain = []string{"x", "y", "b,x", "b x"}
+var optSDomain = []string{"", "p", "b,p"}
+
 func genItems(r *rand.Rand) []*Item {
 	n := 4 + r.Intn(14)
 	out := make([]*Item, 0, n)
@@ -268,8 +277,8 @@ func genItems(r *rand.Rand) []*Item {
 			Grp:   int64(r.Intn(3)),
 			Small: int32(r.Intn(3)),
 			Lvl:   Level(r.Intn(3)),
-			Name:  []string{"a", "b", "c", ""}[r.Intn(4)],
-			St:    Status([]string{"x", "y"}[r.Intn(2)]),
+			Name:  nameDomain[r.Intn(len(nameDomain))],
+			St:    Status(stDomain[r.Intn(len(stDomain))]),
 			Flag:  r.Intn(2) == 0,
 			At:    times[r.Intn(2)],
 			Note:  []string{"", "n1", "n2"}[r.Intn(3)],
@@ -282,7 +291,7 @@ func genItems(r *rand.Rand) []*Item {
 		}
 		switch r.Intn(3) {
 		case 0:
-			it.OptS = pstr([]string{"", "p"}[r.Intn(2)])
+			it.OptS = pstr(optSDomain[r.Intn(len(optSDomain))])
 		case 1:
 			it.OptS = pstr("p")
 		}
@@ -321,7 +330,7 @@ func genFilter(r *rand.Rand, table string, nItems, nLabels int) (sqlgen.Filter, 
 			return nil, reps
 		}
 		return sqlgen.Filter{}, reps
-	case x < 6:
+	case x < 5:
 		ncols = 1
 	case x < 9:
 		ncols = 2
@@ -334,8 +343,17 @@ func genFilter(r *rand.Rand, table string, nItems, nLabels int) (sqlgen.Filter, 
 	} else {
 		cols = []string{"code", "grp", "val"}
 	}
+	var forced []string
+	if table == "items" && ncols >= 2 && r.Intn(2) == 0 {
+		// the same compound column sets recur within a round
+		forced = [][]string{{"name", "st"}, {"name", "opt_s"}, {"grp", "name"}, {"grp", "small"}, {"name", "st", "grp"}}[r.Intn(5)]
+		ncols = len(forced)
+	}
 	for len(reps) < ncols {
 		col := cols[r.Intn(len(cols))]
+		if forced != nil {
+			col = forced[len(reps)]
+		}
 		if _, dup := reps[col]; dup {
 			continue
 		}
@@ -352,11 +370,11 @@ func genFilter(r *rand.Rand, table string, nItems, nLabels int) (sqlgen.Filter, 
 		case "opt":
 			reps[col] = intRep(r, int64(r.Intn(2)), col)
 		case "name":
-			reps[col] = strRep(r, []string{"a", "b", "c", ""}[r.Intn(4)], col)
+			reps[col] = strRep(r, nameDomain[r.Intn(len(nameDomain))], col)
 		case "st":
-			reps[col] = strRep(r, []string{"x", "y"}[r.Intn(2)], col)
+			reps[col] = strRep(r, stDomain[r.Intn(len(stDomain))], col)
 		case "opt_s":
-			reps[col] = strRep(r, []string{"", "p"}[r.Intn(2)], col)
+			reps[col] = strRep(r, optSDomain[r.Intn(len(optSDomain))], col)
 		case "note":
 			reps[col] = strRep(r, []string{"", "n1", "n2"}[r.Intn(3)], col)
 		case "data":
@@ -586,46 +604,77 @@ func classify(c *qcall, all map[string]interface{}, got []string, gotClass strin
 func runRound(run *vlib.Run, i int) {
 	fmt.Println("CASE", i)
 	r := run.Rand("round", i)
-	eng := fakesql.New("", "verifdb")
-	defer eng.Dispose()
-	proto := "text"
-	if r.Intn(2) == 0 {
-		eng.SetProtocol(fakesql.Binary, r.Intn(2) == 0)
-		proto = "binary"
-	} else if r.Intn(3) == 0 {
-		eng.SetProtocol(fakesql.Text, true)
-	}
-	if r.Intn(2) == 0 {
-		eng.SetRowOrder(fakesql.ShuffledOrder, int64(i))
-	}
 	schema := newSchema()
-	if err := eng.CreateSchemaTables(schema); err != nil {
-		run.Broken(fmt.Sprintf("case %d: %v", i, err))
-		return
-	}
-	conn := eng.Open()
-	defer conn.Close()
-	db := sqlgen.NewDB(conn, schema)
 	bg := context.Background()
-	items, labels := genItems(r), genLabels(r)
-	if err := db.InsertRows(bg, items, 7); err != nil {
-		run.Broken(fmt.Sprintf("case %d: seeding items: %v", i, err))
-		return
+	proto := "text"
+	binary, parseTime, shuffle := false, false, r.Intn(2) == 0
+	if r.Intn(2) == 0 {
+		binary, parseTime, proto = true, r.Intn(2) == 0, "binary"
+	} else if r.Intn(3) == 0 {
+		parseTime = true
 	}
-	if err := db.InsertRows(bg, labels, 100); err != nil {
-		run.Broken(fmt.Sprintf("case %d: seeding labels: %v", i, err))
-		return
+	// one DB handle, or two handles on two engines (same *Schema, different
+	// rows) whose callers share one batching context
+	type handle struct {
+		eng    *fakesql.Engine
+		db     *sqlgen.DB
+		items  []*Item
+		labels []*Label
+	}
+	nHandles := 1
+	if r.Intn(4) == 0 {
+		nHandles = 2
+	}
+	collide := r.Intn(4) == 0
+	var handles []*handle
+	for k := 0; k < nHandles; k++ {
+		eng := fakesql.New("", "verifdb")
+		defer eng.Dispose()
+		if binary {
+			eng.SetProtocol(fakesql.Binary, parseTime)
+		} else if parseTime {
+			eng.SetProtocol(fakesql.Text, true)
+		}
+		if shuffle {
+			eng.SetRowOrder(fakesql.ShuffledOrder, int64(i))
+		}
+		if err := eng.CreateSchemaTables(schema); err != nil {
+			run.Broken(fmt.Sprintf("case %d: %v", i, err))
+			return
+		}
+		conn := eng.Open()
+		defer conn.Close()
+		hd := &handle{eng: eng, db: sqlgen.NewDB(conn, schema), items: genItems(r), labels: genLabels(r)}
+		if collide {
+			// rows for both members of each colliding filter pair (see below)
+			hd.items = append(hd.items,
+				&Item{Name: "a,b", St: "x", At: times[0]}, &Item{Name: "a", St: "b,x", At: times[0]},
+				&Item{Name: "a,b", OptS: pstr("p"), St: "y", At: times[1]}, &Item{Name: "a", OptS: pstr("b,p"), St: "y", At: times[1]})
+		}
+		if err := hd.db.InsertRows(bg, hd.items, 7); err != nil {
+			run.Broken(fmt.Sprintf("case %d: seeding items: %v", i, err))
+			return
+		}
+		if err := hd.db.InsertRows(bg, hd.labels, 100); err != nil {
+			run.Broken(fmt.Sprintf("case %d: seeding labels: %v", i, err))
+			return
+		}
+		handles = append(handles, hd)
+	}
+	items, labels := handles[0].items, handles[0].labels
+	if nHandles == 2 {
+		run.Count("rounds_two_handles", 1)
 	}
 
 	// calls
 	n := 2 + r.Intn(7)
 	calls := make([]*qcall, 0, n)
 	for k := 0; k < n; k++ {
-		c := &qcall{table: "items", row: r.Intn(3) == 0}
+		c := &qcall{table: "items", row: r.Intn(3) == 0, h: r.Intn(nHandles)}
 		if r.Intn(6) == 0 {
 			c.table = "labels"
 		}
-		if k > 0 && r.Intn(6) == 0 { // an equal filter from another caller
+		if k > 0 && r.Intn(6) == 0 { // an equal filter from another caller (possibly of the other handle)
 			prev := calls[r.Intn(len(calls))]
 			c.table, c.filter, c.reps = prev.table, prev.filter, prev.reps
 		} else {
@@ -634,24 +683,45 @@ func runRound(run *vlib.Run, i int) {
 		calls = append(calls, c)
 	}
 
-	// the table contents as structs (by key), read without batching
-	all := map[string]interface{}{}
-	for _, tb := range []string{"items", "labels"} {
-		_, rows, err := runQuery(bg, db, &qcall{table: tb})
-		if err != nil {
-			run.Broken(fmt.Sprintf("case %d: reading %s: %v", i, tb, err))
-			return
+	if collide {
+		// two different filters on the same two columns whose printed values
+		// coincide: ("a,b", "x") / ("a", "b,x")
+		own := func(v string, name string) rep { return rep{val: v, name: name} }
+		var a, b *qcall
+		if r.Intn(2) == 0 {
+			a = &qcall{table: "items", filter: sqlgen.Filter{"name": "a,b", "st": Status("x")}, reps: map[string]rep{"name": own("a,b", "string"), "st": {val: Status("x"), name: "Status"}}}
+			b = &qcall{table: "items", filter: sqlgen.Filter{"name": "a", "st": Status("b,x")}, reps: map[string]rep{"name": own("a", "string"), "st": {val: Status("b,x"), name: "Status"}}}
+		} else {
+			a = &qcall{table: "items", filter: sqlgen.Filter{"name": "a,b", "opt_s": "p"}, reps: map[string]rep{"name": own("a,b", "string"), "opt_s": own("p", "string")}}
+			b = &qcall{table: "items", filter: sqlgen.Filter{"name": "a", "opt_s": "b,p"}, reps: map[string]rep{"name": own("a", "string"), "opt_s": own("b,p", "string")}}
 		}
-		for k, v := range rows {
-			all[tb+"/"+k] = v
+		a.h = r.Intn(nHandles)
+		b.h = a.h
+		calls = append(calls, a, b)
+		r.Shuffle(len(calls), func(x, y int) { calls[x], calls[y] = calls[y], calls[x] })
+		run.Count("rounds_with_colliding_tuple_pair", 1)
+	}
+
+	// the table contents as structs (by handle and key), read without batching
+	all := map[string]interface{}{}
+	for hi, hd := range handles {
+		for _, tb := range []string{"items", "labels"} {
+			_, rows, err := runQuery(bg, hd.db, &qcall{table: tb})
+			if err != nil {
+				run.Broken(fmt.Sprintf("case %d: reading %s: %v", i, tb, err))
+				return
+			}
+			for k, v := range rows {
+				all[fmt.Sprintf("%d/%s/%s", hi, tb, k)] = v
+			}
 		}
 	}
 	// reference: one at a time, no batching. The row set comes from Query;
 	// QueryRow's own unbatched outcome must agree with it (row / ErrNoRows /
 	// another error exactly when Query returns more than one row).
 	for _, c := range calls {
-		q := &qcall{table: c.table, filter: c.filter}
-		c.refKeys, c.refRows, c.refErr = runQuery(bg, db, q)
+		q := &qcall{table: c.table, filter: c.filter, h: c.h}
+		c.refKeys, c.refRows, c.refErr = runQuery(bg, handles[c.h].db, q)
 		if c.refErr != nil {
 			run.Broken(fmt.Sprintf("case %d: unbatched %s failed: %v", i, q.describe(), c.refErr))
 			return
@@ -667,7 +737,7 @@ func runRound(run *vlib.Run, i int) {
 		default:
 			c.refRowClass = "many"
 		}
-		keys, _, err := runQuery(bg, db, c)
+		keys, _, err := runQuery(bg, handles[c.h].db, c)
 		own := rowClass(keys, err)
 		if own == "error" {
 			own = "many"
@@ -679,7 +749,10 @@ func runRound(run *vlib.Run, i int) {
 	}
 
 	// batched: all callers concurrently on one batching context
-	mark := eng.Mark("batched")
+	marks := make([]int64, nHandles)
+	for hi, hd := range handles {
+		marks[hi] = hd.eng.Mark("batched")
+	}
 	bctx := batch.WithBatching(bg)
 	var wg sync.WaitGroup
 	for _, c := range calls {
@@ -691,21 +764,23 @@ func runRound(run *vlib.Run, i int) {
 					c.gotErr = fmt.Errorf("panic: %v", p)
 				}
 			}()
-			c.gotKeys, c.gotRows, c.gotErr = runQuery(bctx, db, c)
+			c.gotKeys, c.gotRows, c.gotErr = runQuery(bctx, handles[c.h].db, c)
 		}(c)
 	}
 	wg.Wait()
-	if b := eng.Broken(); len(b) > 0 {
-		run.Broken(fmt.Sprintf("case %d: fake SQL engine: %s", i, strings.Join(b, " | ")))
-		return
-	}
 	selects := 0
 	var stmts []string
-	for _, st := range eng.LogSince(mark) {
-		if st.Kind == fakesql.SSelect {
-			selects++
+	for hi, hd := range handles {
+		if b := hd.eng.Broken(); len(b) > 0 {
+			run.Broken(fmt.Sprintf("case %d: fake SQL engine: %s", i, strings.Join(b, " | ")))
+			return
 		}
-		stmts = append(stmts, st.Summary())
+		for _, st := range hd.eng.LogSince(marks[hi]) {
+			if st.Kind == fakesql.SSelect {
+				selects++
+			}
+			stmts = append(stmts, fmt.Sprintf("db%d: %s", hi, st.Summary()))
+		}
 	}
 	combined := selects < len(calls)
 	if combined {
@@ -728,7 +803,7 @@ func runRound(run *vlib.Run, i int) {
 		}
 	}
 	sort.Strings(shapes)
-	run.Case(strings.Join(shapes, ";"), combined && len(calls) >= 2)
+	run.Case(fmt.Sprintf("handles=%d;", nHandles)+strings.Join(shapes, ";"), combined && len(calls) >= 2)
 
 	witness := func(c *qcall, what string) map[string]interface{} {
 		var all []string
@@ -736,6 +811,7 @@ func runRound(run *vlib.Run, i int) {
 			all = append(all, o.describe())
 		}
 		var tbl []string
+		items, labels := handles[c.h].items, handles[c.h].labels
 		if c.table == "items" {
 			for k, it := range items {
 				cp := *it
@@ -760,11 +836,12 @@ func runRound(run *vlib.Run, i int) {
 			"batched_statements": stmts, "table_rows": tbl, "protocol": proto,
 		}
 	}
-	allOf := func(table string) map[string]interface{} {
+	allOf := func(c *qcall) map[string]interface{} {
 		m := map[string]interface{}{}
+		prefix := fmt.Sprintf("%d/%s/", c.h, c.table)
 		for k, v := range all {
-			if strings.HasPrefix(k, table+"/") {
-				m[strings.TrimPrefix(k, table+"/")] = v
+			if strings.HasPrefix(k, prefix) {
+				m[strings.TrimPrefix(k, prefix)] = v
 			}
 		}
 		return m
@@ -786,7 +863,7 @@ func runRound(run *vlib.Run, i int) {
 			}
 			cls := ""
 			if !strings.HasPrefix(c.gotClass, "ok-with") {
-				cls = classify(c, allOf(c.table), nil, got)
+				cls = classify(c, allOf(c), nil, got)
 			}
 			run.Count("mismatch:"+orUnclassified(cls), 1)
 			run.Violation(i, cls, witness(c, fmt.Sprintf("QueryRow outcome differs under batching: alone %s, batched %s", c.refRowClass, c.gotClass)))
@@ -818,7 +895,7 @@ func runRound(run *vlib.Run, i int) {
 		if got == nil {
 			got = []string{}
 		}
-		cls := classify(c, allOf(c.table), got, "")
+		cls := classify(c, allOf(c), got, "")
 		run.Count("mismatch:"+orUnclassified(cls), 1)
 		run.Violation(i, cls, witness(c, "rows returned under batching differ from the rows returned on its own"))
 	}
